@@ -1,10 +1,12 @@
 (* C16 — facts about the calendar model (Model/Civil.v).
-   Technique: every function is periodic in the 400-year era (146097 days, a
-   multiple of 7), so a boolean statement checked on one era (the three sweeps of
-   Proofs/CivilSweep.v, closed by the kernel VM over a positive-indexed range
-   checker) holds for every day number (lemma `era_lift`).  Everything about ISO
-   weeks is derived by linear arithmetic from one per-year fact (an ISO year has
-   iso_weeks_in_year whole weeks). *)
+   The round trip days_from_civil (civil_from_days z) = z, the field ranges and the
+   month bounds are proved by linear arithmetic (lia over floor divisions) from one
+   per-year fact: the year-of-era formula is right on the first and last day of each
+   of the 400 years of an era (sweep of 400 values) and monotone in between.
+   Month starts are strictly increasing (sweep of the 4800 months of an era, lifted
+   by periodicity, lemma `era_lift`).  Everything about ISO weeks is derived by
+   linear arithmetic from one per-year fact (an ISO year has iso_weeks_in_year whole
+   weeks; sweep of 400 years, lifted by periodicity). *)
 From Coq Require Import ZArith Lia List Bool.
 From L4 Require Import Model.Civil.
 From L4 Require Export Proofs.CivilSweep.
@@ -159,40 +161,175 @@ Proof.
   f_equal; lia.
 Qed.
 
-(* ---------- the round trip and field ranges ---------- *)
+(* ---------- the round trip and field ranges (arithmetic) ---------- *)
 
-Lemma civil_ok_all : forall z, civil_ok z = true.
+Lemma g_mono : forall a b, 0 <= a <= b -> b < 146097 ->
+  a - a / 1460 + a / 36524 - a / 146096 <= b - b / 1460 + b / 36524 - b / 146096.
+Proof. intros a b H1 H2. Z.div_mod_to_equations; lia. Qed.
+
+Lemma yoe_mono : forall a b, 0 <= a <= b -> b < 146097 -> yoe_of a <= yoe_of b.
+Proof. intros a b H1 H2. unfold yoe_of. apply Z.div_le_mono; [lia|]. apply g_mono; assumption. Qed.
+
+Lemma ys_step : forall y, 0 <= y -> 365 <= ys (y + 1) - ys y <= 366.
+Proof. intros y H. unfold ys. Z.div_mod_to_equations; lia. Qed.
+
+Lemma ysb_lt400 : forall y, y < 400 -> ysb y = ys y.
+Proof. intros y H. unfold ysb. replace (400 <=? y) with false by (symmetry; apply Z.leb_gt; lia). lia. Qed.
+
+Lemma ysb_400 : ysb 400 = 146097.
+Proof. reflexivity. Qed.
+
+Lemma ysb_step : forall y, 0 <= y < 400 -> 365 <= ysb (y + 1) - ys y <= 366.
 Proof.
-  apply (era_lift 146097); [|exact civil_ok_era].
-  intros z. unfold civil_ok. rewrite cfd_periodic.
-  destruct (civil_from_days z) as [[y m] d].
-  rewrite dfc_periodic.
-  replace (12 * (y + 400) + m) with (12 * y + m + 4800) by lia.
-  rewrite month_start_periodic.
-  assert (E1 : (days_from_civil y m d + 146097 =? z + 146097) = (days_from_civil y m d =? z)).
-  { destruct (days_from_civil y m d =? z) eqn:E.
-    + apply Z.eqb_eq in E. apply Z.eqb_eq. lia.
-    + apply Z.eqb_neq in E. apply Z.eqb_neq. lia. }
-  assert (E2 : (z + 146097 <? month_start (12 * y + m) + 146097) = (z <? month_start (12 * y + m))).
-  { destruct (z <? month_start (12 * y + m)) eqn:E.
-    + apply Z.ltb_lt in E. apply Z.ltb_lt. lia.
-    + apply Z.ltb_ge in E. apply Z.ltb_ge. lia. }
-  rewrite E1, E2. reflexivity.
+  intros y H. destruct (Z.eq_dec y 399) as [->|Hne].
+  - vm_compute. split; discriminate.
+  - rewrite ysb_lt400 by lia. apply ys_step. lia.
 Qed.
 
-(* civil_from_days is a right inverse of days_from_civil, its month and day are in
-   range, and the day lies inside the month it names *)
+Lemma find_year : forall n : nat, (n <= 400)%nat -> forall doe, 0 <= doe < ysb (Z.of_nat n) ->
+  exists Y, 0 <= Y < Z.of_nat n /\ ys Y <= doe < ysb (Y + 1).
+Proof.
+  induction n as [|n IH]; intros Hn doe Hd.
+  - change (ysb (Z.of_nat 0)) with 0 in Hd. lia.
+  - rewrite Nat2Z.inj_succ in *. unfold Z.succ in *.
+    destruct (Z_lt_ge_dec doe (ys (Z.of_nat n))) as [Hlt|Hge].
+    + destruct (IH ltac:(lia) doe) as (Y & HY & HB).
+      * rewrite ysb_lt400 by lia. lia.
+      * exists Y. split; [lia|exact HB].
+    + exists (Z.of_nat n). split; [lia|]. lia.
+Qed.
+
+Lemma yoe_spec : forall doe, 0 <= doe < 146097 ->
+  0 <= yoe_of doe <= 399 /\ ys (yoe_of doe) <= doe < ysb (yoe_of doe + 1).
+Proof.
+  intros doe Hd.
+  destruct (find_year 400 ltac:(lia) doe) as (Y & HY & HB).
+  { change (Z.of_nat 400) with 400. rewrite ysb_400. lia. }
+  change (Z.of_nat 400) with 400 in HY.
+  pose proof (chk_sound _ _ _ yoe_ends_era Y ltac:(lia)) as HE.
+  unfold yoe_ends_ok in HE. apply andb_prop in HE. destruct HE as [E1 E2].
+  apply Z.eqb_eq in E1, E2.
+  pose proof (ysb_step Y ltac:(lia)) as Hs.
+  assert (Hys0 : 0 <= ys Y) by (unfold ys; Z.div_mod_to_equations; lia).
+  assert (Hle : ysb (Y + 1) <= 146097).
+  { destruct (Z.eq_dec Y 399) as [->|Hne]; [vm_compute; discriminate|].
+    rewrite ysb_lt400 by lia. unfold ys. Z.div_mod_to_equations; lia. }
+  pose proof (yoe_mono (ys Y) doe ltac:(lia) ltac:(lia)).
+  pose proof (yoe_mono doe (ysb (Y + 1) - 1) ltac:(lia) ltac:(lia)).
+  assert (yoe_of doe = Y) by lia. subst Y. split; [lia|exact HB].
+Qed.
+
+(* days_from_civil in March-based coordinates *)
+Lemma dfc_march : forall era yoe mp d m y,
+  0 <= yoe <= 399 -> 0 <= mp <= 11 ->
+  m = (if mp <? 10 then mp + 3 else mp - 9) ->
+  y = (if m <=? 2 then yoe + 1 else yoe) + era * 400 ->
+  days_from_civil y m d = era * 146097 + ys yoe + (153 * mp + 2) / 5 + d - 1 - 719468.
+Proof.
+  intros era yoe mp d m y Hy Hmp Hm Hyy. unfold days_from_civil, ys. cbv zeta.
+  destruct (mp <? 10) eqn:E; [apply Z.ltb_lt in E|apply Z.ltb_ge in E]; subst m.
+  - replace (mp + 3 <=? 2) with false in * by (symmetry; apply Z.leb_gt; lia).
+    replace (2 <? mp + 3) with true by (symmetry; apply Z.ltb_lt; lia).
+    subst y. rewrite Z.div_add, Z.mod_add by lia.
+    rewrite Z.div_small, Z.mod_small by lia.
+    replace (mp + 3 - 3) with mp by lia. lia.
+  - replace (mp - 9 <=? 2) with true in * by (symmetry; apply Z.leb_le; lia).
+    replace (2 <? mp - 9) with false by (symmetry; apply Z.ltb_ge; lia).
+    subst y. replace (yoe + 1 + era * 400 - 1) with (yoe + era * 400) by lia.
+    rewrite Z.div_add, Z.mod_add by lia.
+    rewrite Z.div_small, Z.mod_small by lia.
+    replace (mp - 9 + 9) with mp by lia. lia.
+Qed.
+
+(* the decomposition civil_from_days performs *)
+Lemma civil_from_days_march : forall z y m d,
+  civil_from_days z = (y, m, d) ->
+  exists era yoe mp doy,
+    z + 719468 = era * 146097 + ys yoe + doy /\
+    0 <= yoe <= 399 /\ 0 <= doy /\ ys yoe + doy < ysb (yoe + 1) /\
+    mp = (5 * doy + 2) / 153 /\ 0 <= mp <= 11 /\
+    d = doy - (153 * mp + 2) / 5 + 1 /\
+    m = (if mp <? 10 then mp + 3 else mp - 9) /\
+    y = (if m <=? 2 then yoe + 1 else yoe) + era * 400.
+Proof.
+  intros z y m d E. unfold civil_from_days, civil_of_doe in E. cbv zeta in E.
+  set (doe := (z + 719468) mod 146097) in *.
+  set (era := (z + 719468) / 146097) in *.
+  assert (Hdoe : 0 <= doe < 146097) by (subst doe; apply Z.mod_pos_bound; lia).
+  fold (yoe_of doe) in E.
+  destruct (yoe_spec doe Hdoe) as (Hy & Hlo & Hhi).
+  set (yoe := yoe_of doe) in *.
+  fold (ys yoe) in E.
+  set (doy := doe - ys yoe) in *.
+  assert (Edoy : doy = doe - ys yoe) by reflexivity. clearbody doy.
+  pose proof (ysb_step yoe ltac:(lia)) as Hstep.
+  assert (Hdoy : 0 <= doy <= 365) by lia.
+  assert (Hz : z + 719468 = era * 146097 + doe)
+    by (subst era doe; pose proof (Z.div_mod (z + 719468) 146097 ltac:(lia)); lia).
+  clearbody era doe.
+  injection E as Ey Em Ed.
+  exists era, yoe, ((5 * doy + 2) / 153), doy.
+  split; [lia|]. split; [lia|]. split; [lia|]. split; [lia|]. split; [reflexivity|].
+  split; [Z.div_mod_to_equations; lia|].
+  split; [symmetry; exact Ed|].
+  split; [symmetry; exact Em|].
+  rewrite <- Ey, <- Em. reflexivity.
+Qed.
+
 Lemma civil_from_days_spec : forall z y m d,
   civil_from_days z = (y, m, d) ->
   days_from_civil y m d = z /\ 1 <= m <= 12 /\ 1 <= d <= 31 /\
   month_start (12 * y + (m - 1)) <= z < month_start (12 * y + (m - 1) + 1).
 Proof.
-  intros z y m d E. pose proof (civil_ok_all z) as H. unfold civil_ok in H. rewrite E in H.
-  rewrite !andb_true_iff in H. destruct H as (((((Ha & Hb) & Hc) & Hd) & He) & Hf).
-  apply Z.eqb_eq in Ha. apply Z.leb_le in Hb, Hc, Hd, He. apply Z.ltb_lt in Hf.
-  repeat split; try lia.
-  - rewrite month_start_ym by lia. rewrite (dfc_linear_day y m d) in Ha. lia.
-  - replace (12 * y + (m - 1) + 1) with (12 * y + m) by lia. exact Hf.
+  intros z y m d E.
+  destruct (civil_from_days_march z y m d E)
+    as (era & yoe & mp & doy & Hz & Hy & Hdoy0 & Hhi & Hmp & Hmpr & Hd & Hm & Hyy).
+  pose proof (dfc_march era yoe mp d m y Hy Hmpr Hm Hyy) as D.
+  pose proof (dfc_march era yoe mp 1 m y Hy Hmpr Hm Hyy) as D1.
+  pose proof (ysb_step yoe ltac:(lia)) as Hstep.
+  assert (F1 : (153 * mp + 2) / 5 <= doy) by (subst mp; Z.div_mod_to_equations; lia).
+  assert (F2 : doy < (153 * (mp + 1) + 2) / 5) by (subst mp; Z.div_mod_to_equations; lia).
+  assert (Hm12 : 1 <= m <= 12) by (subst m; destruct (mp <? 10) eqn:E1;
+    [apply Z.ltb_lt in E1|apply Z.ltb_ge in E1]; lia).
+  split; [rewrite D; lia|]. split; [exact Hm12|].
+  split; [subst d; Z.div_mod_to_equations; lia|].
+  split; [rewrite month_start_ym by exact Hm12; rewrite D1; lia|].
+  assert (Hcase : mp <= 8 \/ mp = 9 \/ mp = 10 \/ mp = 11) by lia.
+  destruct Hcase as [C|[C|[C|C]]].
+  - (* March .. November *)
+    replace (mp <? 10) with true in Hm by (symmetry; apply Z.ltb_lt; lia).
+    replace (m <=? 2) with false in Hyy by (symmetry; apply Z.leb_gt; lia).
+    replace (12 * y + (m - 1) + 1) with (12 * y + ((m + 1) - 1)) by lia.
+    rewrite month_start_ym by lia.
+    rewrite (dfc_march era yoe (mp + 1) 1 (m + 1) y Hy ltac:(lia)).
+    + lia.
+    + replace (mp + 1 <? 10) with true by (symmetry; apply Z.ltb_lt; lia). lia.
+    + replace (m + 1 <=? 2) with false by (symmetry; apply Z.leb_gt; lia). exact Hyy.
+  - (* December -> January of the next year *)
+    subst mp. rewrite C in *. cbn in Hm. subst m. cbn in Hyy.
+    replace (12 * y + (12 - 1) + 1) with (12 * (y + 1) + (1 - 1)) by lia.
+    rewrite month_start_ym by lia.
+    rewrite (dfc_march era yoe 10 1 1 (y + 1) Hy ltac:(lia) eq_refl).
+    + Z.div_mod_to_equations; lia.
+    + cbn. lia.
+  - (* January -> February *)
+    subst mp. rewrite C in *. cbn in Hm. subst m. cbn in Hyy.
+    replace (12 * y + (1 - 1) + 1) with (12 * y + (2 - 1)) by lia.
+    rewrite month_start_ym by lia.
+    rewrite (dfc_march era yoe 11 1 2 y Hy ltac:(lia) eq_refl).
+    + Z.div_mod_to_equations; lia.
+    + cbn. exact Hyy.
+  - (* February -> March: the next March-based year *)
+    subst mp. rewrite C in *. cbn in Hm. subst m. cbn in Hyy.
+    replace (12 * y + (2 - 1) + 1) with (12 * y + (3 - 1)) by lia.
+    rewrite month_start_ym by lia.
+    destruct (Z.eq_dec yoe 399) as [Y9|Y9].
+    + rewrite (dfc_march (era + 1) 0 0 1 3 y ltac:(lia) ltac:(lia) eq_refl).
+      * subst yoe. change (ysb (399 + 1)) with 146097 in Hhi. change (ys 0) with 0. Z.div_mod_to_equations; lia.
+      * cbn. lia.
+    + rewrite (dfc_march era (yoe + 1) 0 1 3 y ltac:(lia) ltac:(lia) eq_refl).
+      * rewrite ysb_lt400 in Hhi by lia. Z.div_mod_to_equations; lia.
+      * cbn. lia.
 Qed.
 
 Lemma year_of_bounds : forall z,
